@@ -407,7 +407,7 @@ func keysB(m map[string]bool) []string {
 }
 
 func runC19(c *Check) {
-	c.Rule = "7 build families (JS graph with externals/JSON/CJS/dynamic import/tree-shaken module, CSS graph with @import/url()/data URLs/externals, JS importing CSS, splitting, legal comments, glob imports + inject, copy/file loader entries) x 11 option variants (minify, source maps, hashed and long name templates, public path, legal comments external, cjs, iife, outbase) x marker strings in every top-level statement; the metafile is checked against the emitted bytes: keys == emitted paths, byte sizes, entry points, imports of every output == import statements/@import/url() scanned from that file, export names, inputs == files read with sizes and resolved imports, sum(bytesInOutput) <= size, contribution > 0 <=> a marker of that input occurs in the output; distinct = distinct metafiles; abs-paths variants (metafile/code/both) with a strict path-style check over every path in the metafile"
+	c.Rule = "7 build families (JS graph with externals/JSON/CJS/dynamic import/tree-shaken module, CSS graph with @import/url()/data URLs/externals, JS importing CSS, splitting, legal comments, glob imports + inject, copy/file loader entries) x 11 option variants (minify, source maps, hashed and long name templates, public path, legal comments external, cjs, iife, outbase) x marker strings in every top-level statement; the metafile is checked against the emitted bytes: keys == emitted paths, byte sizes, entry points, imports of every output == import statements/@import/url() scanned from that file, export names, inputs == files read with sizes and resolved imports, sum(bytesInOutput) <= size, contribution > 0 <=> a marker of that input occurs in the output; distinct = distinct metafiles; abs-paths variants (metafile/code/both) with a strict path-style check over every path in the metafile; public-path differential: every family x {plain, minify} without splitting under 3 public paths (none, '/', a long URL): size - sum(bytesInOutput) of every output is the same for all three (outputs with a linked legal-comments notice excepted: the notice names its file through the public path)"
 	c.Assump = []string{"outputs are scanned with regular expressions that are exact for esbuild's own regular output format of the generated programs (no import-like text inside strings)"}
 	root := scratchRoot("c19")
 	defer os.RemoveAll(root)
@@ -431,6 +431,64 @@ func runC19(c *Check) {
 		r, o := famBuild(dir, j.f, j.v, nil)
 		c.Eval(1)
 		c19CheckBuild(c, dir, j.f, j.v.name, r, o)
+	})
+	// public-path differential: the bytes of an output that belong to no input (comments, wrappers, runtime) do not depend
+	// on the public path when there are no cross-chunk imports, so size - sum(bytesInOutput) must be the same for every
+	// public path; this makes the attribution of substituted asset paths exact instead of only bounded by the file size
+	pubs := []string{"", "/", "https://cdn.example.com/a/rather/long/public/path/"}
+	c.ForEach(uint64(len(fams)*2), func(w int, i uint64) {
+		f, v := fams[i/2], vars[i%2]
+		dir := filepath.Join(root, fmt.Sprintf("p%d", i))
+		writeTree(dir, f.files)
+		defer os.RemoveAll(dir)
+		var first map[string]int
+		for pi, pub := range pubs {
+			r, _ := famBuild(dir, f, v, func(o *api.BuildOptions) { o.PublicPath = pub; o.Splitting = false })
+			if len(r.Errors) > 0 {
+				return
+			}
+			c.Eval(1)
+			var m struct {
+				Outputs map[string]struct {
+					Bytes  int `json:"bytes"`
+					Inputs map[string]struct {
+						BytesInOutput int `json:"bytesInOutput"`
+					} `json:"inputs"`
+				} `json:"outputs"`
+			}
+			if json.Unmarshal([]byte(r.Metafile), &m) != nil {
+				return
+			}
+			un := map[string]int{}
+			linked := map[string]bool{} // a linked legal-comments notice names its file through the public path, outside every input
+			for _, of := range r.OutputFiles {
+				if strings.Contains(string(of.Contents), "For license information please see") {
+					if rel, err := filepath.Rel(dir, of.Path); err == nil {
+						linked[filepath.ToSlash(rel)] = true
+					}
+				}
+			}
+			for k, o := range m.Outputs {
+				if linked[k] {
+					continue
+				}
+				u := o.Bytes
+				for _, in := range o.Inputs {
+					u -= in.BytesInOutput
+				}
+				un[k] = u
+			}
+			if pi == 0 {
+				first = un
+				continue
+			}
+			for k, u := range un {
+				if u0, ok := first[k]; ok && u0 != u {
+					c.Violation("meta:"+f.name+"/"+v.name+":publicpath-differential:"+k, map[string]interface{}{"kind": "bytes attributed to no input change with the public path: bytesInOutput does not count the substituted paths exactly",
+						"family": f.name, "variant": v.name, "detail": k, "publicPath": pub, "unattributed_without": u0, "unattributed_with": u})
+				}
+			}
+		}
 	})
 	// the C02 and C10 graph families, generically (keys, sizes, imports, byte sums)
 	graphs := enumGraphs("quick", false)
